@@ -42,6 +42,9 @@ PMonClauses(m, ev) ==
                  \A it \in SeqSet(ev.items) :
                     LET sk == <<PlaceOf(ev, it[1]), it[2]>> IN
                     (sk \in DOMAIN m.held /\ m.held[sk] # 0) => <<it[2], m.held[sk]>> \in SeqSet(ev.found)>>,
+        <<"C12-multi-key-answers-have-the-shape-of-the-per-key-operation",      \* gets_many = the per-key gets: (value, cas) pairs
+              (ev.kind = "read" /\ "shapes" \in DOMAIN ev) =>
+                 \A i \in DOMAIN ev.shapes : ev.shapes[i] = (IF ev.withcas THEN 1 ELSE 0)>>,
         <<"C12-nothing-found-that-was-not-written",
               ev.kind = "read" =>
                  \A f \in SeqSet(ev.found) :
